@@ -12,6 +12,7 @@ import InToto.Proofs.Record
 import InToto.Generated.Facts
 import InToto.Model.SchemaFacts
 import InToto.Proofs.Walk
+import InToto.Proofs.WalkSym
 import InToto.Proofs.Snapshots
 import InToto.Model.Switches
 
@@ -113,6 +114,38 @@ theorem unhashable_file_fails_the_walk (cfg : Cfg) (fuel : Nat) (path : Str) (no
     (hf : FileAt path node q d) (hi : cfg.ignored q = false) (hh : hashObj d cfg.algs = none) :
     (visit cfg fuel path node acc).isOk = false :=
   visit_unsupported_fails cfg fuel path node acc hsf q d hf hi hh
+
+/-- C13 (symbolic links: nothing invented): every entry of a successful walk over ANY tree — file
+    links, directory links followed or not, dangling links excluded by the success hypothesis — was
+    there before or is the entry of a file the walk REACHES (`FileAtS`: a file link counts at the
+    link's own path, the files behind a directory link count, re-rooted at the link, exactly when
+    the follow switch is set and the link is not excluded) and that is not excluded: key = its path
+    with the first matching strip prefix removed, value = its digests.  (Recorded finding F19 — no
+    stripping for file links — excluded by hypothesis.) -/
+theorem with_symlinks_nothing_invented (cfg : Cfg) (hq : cfg.noStripSymlink = false) (roots : List (Str × Option Node))
+    (acc m : ArtMap) (h : recordArtifacts cfg roots acc = .ok m) (e : Str × List (Str × Str)) (he : e ∈ m) :
+    e ∈ acc ∨ ∃ p n q d hh, (p, some n) ∈ roots ∧ FileAtS cfg p n q d ∧ cfg.ignored q = false ∧
+      hashObj d cfg.algs = some hh ∧ e = (stripPath cfg.lstrip q, hh) :=
+  recordArtifacts_sym_sound cfg hq roots acc m h e he
+
+/-- C13 (symbolic links: nothing missed): every reached, non-excluded file has an entry under its
+    stripped path (two reached files may share a key when links are followed; the later replaces
+    the earlier, so this is completeness of the KEYS, exactness holds on symlink-free trees) -/
+theorem with_symlinks_nothing_missed (cfg : Cfg) (hq : cfg.noStripSymlink = false) (roots : List (Str × Option Node))
+    (acc m : ArtMap) (h : recordArtifacts cfg roots acc = .ok m) (p : Str) (n : Node) (hr : (p, some n) ∈ roots)
+    (q : Str) (d : List (Str × Str)) (hf : FileAtS cfg p n q d) (hi : cfg.ignored q = false) :
+    (lookup (stripPath cfg.lstrip q) m).isSome = true :=
+  recordArtifacts_sym_complete cfg hq roots acc m h p n hr q d hf hi
+
+/-- C13 (the follow switch off): nothing is recorded for what lies behind a directory link -/
+theorem directory_link_not_followed_records_nothing (cfg : Cfg) (hf : cfg.followDirs = false) (fuel : Nat) (path : Str)
+    (ch : List (Str × Node)) (acc m : ArtMap) (h : visit cfg fuel path (.symDir ch) acc = .ok m) : m = acc :=
+  symDir_not_followed cfg hf fuel path ch acc m h
+
+/-- on symlink-free trees the reachability notion with links is the plain one -/
+theorem reachability_agrees_on_symlink_free_trees (cfg : Cfg) (p : Str) (node : Node) (q : Str) (d : List (Str × Str))
+    (hsf : symlinkFree node = true) : FileAtS cfg p node q d ↔ FileAt p node q d :=
+  fileAtS_of_symlinkFree cfg p node q d hsf
 
 /-- the model's recursion bound is an artefact: the fuel `recordArtifacts` starts with always suffices -/
 theorem walk_never_runs_out_of_fuel (cfg : Cfg) (fuel : Nat) (path : Str) (node : Node) (acc : ArtMap)
